@@ -18,8 +18,9 @@ RULE = (
     'batch x start; distinct = cell without seed; non-trivial iff KL>1e-3 (definition) / q != q* (bound)'
     '; pass 5: coinciding sizes (M=N, M=B, M=batch, single points); registered added loss terms (combined and as fourth part)'
     '; pass 6: minibatches with missing targets under both NaN policies; Cholesky parameter with arbitrary strict upper triangle'
+    "; pass 7: a deep copy keeps its objective when the original trains on; mean-field q(u) (random, wide, best of the family) in both frames; N*ELBO against its dense definition (KL with its trace term) for every non-degenerate q(u)"
 )
-REQUIRED = ["objective_matches_definition", "captured_terms_used", "elbo_below_evidence", "optimal_q_attains_titsias", "elbo_below_titsias", "ngd_one_step_reaches_optimum"]
+REQUIRED = ["objective_matches_definition", "captured_terms_used", "elbo_below_evidence", "optimal_q_attains_titsias", "elbo_below_titsias", "ngd_one_step_reaches_optimum", "elbo_equals_dense_definition"]
 ASSUMPTIONS = ["Gaussian-likelihood bounds use the prior regularised by the strategy's jitter (jitter rule); the statement's NGD clause is restricted to NaturalVariationalDistribution"]
 ANCHOR_FILES = ["gpytorch/mlls/", "gpytorch/optim/ngd.py", "gpytorch/variational/natural_variational_distribution.py", "gpytorch/variational/"]
 
@@ -60,6 +61,10 @@ def cases(tier, seed):
             yield {"kind": "definition_mt", "objective": obj, "wrapper": wrapper, "T": T, "beta": beta, "N": rnd.choice([20, 33]), "B": rnd.choice([1, 5, 9]), "seed": rnd.randrange(10**6)}
         for strat, q in itertools.product(["VariationalStrategy", "UnwhitenedVariationalStrategy"], ["random", "tinyS", "hugeS", "farmean", "prior", "optimal", "upper_garbage"]):
             yield {"kind": "bound", "strategy": strat, "q": q, "N": rnd.choice([12, 25]), "seed": rnd.randrange(10**6)}
+        # mean-field q(u) (diagonal in the strategy's own frame): random, and the best one of the family; N*ELBO against its dense
+        # definition (trace term of the KL included) and against the evidence
+        for strat, q in itertools.product(["VariationalStrategy", "UnwhitenedVariationalStrategy"], ["mf_random", "mf_best", "mf_wide"]):
+            yield {"kind": "bound", "strategy": strat, "q": q, "vd": "MeanFieldVariationalDistribution", "N": rnd.choice([12, 25]), "seed": rnd.randrange(10**6)}
         for strat, b, start in itertools.product(["VariationalStrategy", "UnwhitenedVariationalStrategy"], [[], [3]], ["init", "random"]):
             yield {"kind": "ngd", "strategy": strat, "batch": b, "start": start, "N": 20, "seed": rnd.randrange(10**6)}
 
@@ -514,11 +519,31 @@ def _bound(case, ctx, g):
     from vf import util
 
     strat = case["strategy"]
-    m, lik, Z, X, y = _gauss_setup(case, g, strat, "CholeskyVariationalDistribution")
+    m, lik, Z, X, y = _gauss_setup(case, g, strat, case.get("vd", "CholeskyVariationalDistribution"))
     N = case["N"]
     bounds, (m_opt, S_opt), (mz, Kzz, L) = _dense_bounds(m, lik, Z, X, y, strat)
     q = case["q"]
-    if q == "optimal":
+    if q.startswith("mf_"):
+        # frame of the parameterisation: whitened u' = L^-1 (u - mz) or u itself
+        Li = torch.linalg.inv(L)
+        if strat == "VariationalStrategy":
+            S_f, m_f = Li @ S_opt @ Li.T, (Li @ (m_opt - mz).unsqueeze(-1)).squeeze(-1)
+        else:
+            S_f, m_f = S_opt, m_opt
+        if q == "mf_best":
+            d_f = 1.0 / torch.linalg.inv(S_f).diagonal()  # best diagonal q: posterior mean, inverse of the precision's diagonal
+        else:
+            d_f = (0.2 + util.rand(g, M_)) ** 2 * (9.0 if q == "mf_wide" else 1.0)
+            m_f = m_f + util.randn(g, M_) * 0.5
+        vd = m.variational_strategy._variational_distribution
+        with torch.no_grad():
+            vd.variational_mean.copy_(m_f)
+            vd._variational_stddev.copy_(d_f.sqrt())
+        if strat == "VariationalStrategy":
+            m_u, S_u = mz + L @ m_f, L @ torch.diag(d_f) @ L.T
+        else:
+            m_u, S_u = m_f, torch.diag(d_f)
+    elif q == "optimal":
         m_u, S_u = m_opt, S_opt
     elif q == "prior":
         m_u, S_u = mz, Kzz
@@ -527,7 +552,8 @@ def _bound(case, ctx, g):
         base = A @ A.T + 0.2 * torch.eye(M_)
         m_u = mz + util.randn(g, M_) * (6.0 if q == "farmean" else 0.7)
         S_u = base * (1e-6 if q == "tinyS" else (1e4 if q == "hugeS" else 1.0))
-    _set_qu(m, strat, m_u, S_u, mz, L)
+    if not q.startswith("mf_"):
+        _set_qu(m, strat, m_u, S_u, mz, L)
     mll = gpytorch.mlls.VariationalELBO(lik, m, num_data=N)
     if q == "upper_garbage":
         # the Cholesky parameter is a full matrix whose strict upper triangle the parameterisation ignores (an optimiser may
@@ -547,6 +573,23 @@ def _bound(case, ctx, g):
             P.add_(torch.triu(util.randn(g, *P.shape), diagonal=1) * 0.8)
     with torch.no_grad():
         elbo = mll(m(X), y) * N
+    if q in ("random", "farmean", "prior") or q.startswith("mf_"):
+        # N*ELBO from its dense definition for this very q(u) = N(m_u, S_u):
+        # sum_i [log N(y_i | mu_q(x_i), s2) - var_q(x_i) / (2 s2)] - KL(q(u) || p(u)), KL with its trace term tr(Kzz^-1 S_u)
+        import math
+
+        with torch.no_grad():
+            k_, mu_ = m.covar_module, m.mean_module
+            Kxz, Kxx = k_(X, Z).to_dense(), k_(X).to_dense()
+            s2 = lik.noise.detach().reshape(())
+            A_ = torch.linalg.solve(Kzz, Kxz.T)  # Kzz^-1 Kzx
+            mu_q = mu_(X) + A_.T @ (m_u - mz)
+            kl_ref = 0.5 * (torch.trace(torch.linalg.solve(Kzz, S_u)) + (m_u - mz) @ torch.linalg.solve(Kzz, m_u - mz) - M_ + torch.logdet(Kzz) - torch.logdet(S_u))
+            refs = []
+            for jx in ((float(m.variational_strategy.jitter_val), 0.0) if strat == "VariationalStrategy" else (0.0, float(m.variational_strategy.jitter_val))):
+                var_q = (Kxx + jx * torch.eye(N) - Kxz @ A_ + A_.T @ S_u @ A_).diagonal()
+                refs.append((-0.5 * math.log(2 * math.pi) - 0.5 * torch.log(s2) - 0.5 * ((y - mu_q) ** 2 + var_q) / s2).sum() - kl_ref)
+        ctx.close("elbo_equals_dense_definition", elbo, refs[0], (1e-6, 1e-6), cls=f"{q}:{strat[:6]}", alt=refs[1], q=q)
     exact_j, tits_j = bounds["jit"]
     exact_0, tits_0 = bounds["nojit"]
     slack = 1e-6 + 2 * abs(float(exact_j - exact_0))
